@@ -30,6 +30,17 @@ CHECKS = {
         design_ref='DESIGN.md §2 C12',
         note='Trusted: the pure-Python model of networkx node/edge semantics and of the documented Molecule operations. Bulk removal with one-shot iterators, self-merges and non-numeric keys are outside the generated domain.',
         technique='Hypothesis model-based (stateful) operation-sequence generation vs. a reference model, invariant after every step'),
+    'C16': dict(
+        category='exploration',
+        text=('Round trip write_pdb->read_pdb and write_gro->read_gro on generated systems (1-6 molecules; names, residue numbers, '
+              'chains, insertion codes and coordinates drawn at, below and beyond every column width; bond patterns up to degree 9; '
+              'molecules tiled to cross 10 000 and, in the thorough tier, 100 000 atoms). Every field read back must equal the value '
+              'written or, on overflow, a truncation of that field only; line lengths and separator columns are checked on the text; '
+              'within five-digit serials the CONECT bond set and the TER partition must be identical. Exploration with constructed '
+              'boundary values is the right level because the failures live exactly at field-width boundaries.'),
+        design_ref='DESIGN.md §2 C16',
+        note='Trusted: the per-field expectation (fits => equal, else prefix/suffix truncation). Names contain a letter in every possible truncation; altloc unset; atom ids absent or monotone with node order; no inter-molecule bonds.',
+        technique='Hypothesis round-trip testing with boundary-value construction and fixed-column text checks'),
 }
 
 NOT_YET = 'check not built yet in this round (planned, see DESIGN.md §2)'
